@@ -120,7 +120,7 @@ def run_case(case):
         elif abs(got - b) > 1e-5:
             bad("cdf_not_orthant_integral", {"x": x, "cdf": got, "cubature": b})
         # (n, n_dim) input and list input give the same
-    if case.get("cdf_points"):
+    if case.get("cdf_points") and n_dim == 2:     # (a 3-D cdf costs ~5 min per point: input forms and batches on 2-D models)
         xs = np.array([[np.quantile(S[:, d], q) for d, q in enumerate(x)] for x in case["cdf_points"][:2]])
         g1 = np.asarray(model.cdf(xs), dtype=float)
         g2 = np.asarray(model.cdf(xs.tolist()), dtype=float)
